@@ -10,6 +10,8 @@ Translated (the Rust text determines the Lean definition):
     `Flags` record (a bit inside the compared domain that is not mentioned on the right must be CLEAR), and the final
     conjunction with the HTLC / update_fee emptiness tests;
   * `ChannelState::can_generate_new_commitment` (the send-side gate) and the pinned set of functions that consult it;
+  * interactive-tx / splice: `is_awaiting_monitor_update`, the pause + monitor_pending_tx_signatures of splice_initial_commitment_signed, the
+    hold-back of `tx_signatures`, the release condition of `signer_maybe_unblocked`, the take-out in monitor_updating_restored;
   * `FundedChannel::get_shutdown`: the chain of refusals before any state is changed;
   * `FundedChannel::maybe_propose_closing_signed`: the chain of early returns before the first closing_signed is built;
   * `FundedChannel::closing_signed` (the handler): the chain of guards up to and including the in-progress hold-back;
@@ -282,6 +284,29 @@ def main():
             GA['@%s@' % g] = '(%s v f)' % camel(g)
         return bexpr(e2, GA, where)
     gs = [gcond(x, 'get_shutdown refusal') for x in gm.groups()[:5]]
+    # ---- interactive-tx / splice: tx_signatures wait for the monitor update that records the counterparty's initial commitment ----
+    b = sole(ch, 'is_awaiting_monitor_update')
+    if b != '{ self.context.channel_state.is_monitor_update_in_progress() }': raise TranslateError('is_awaiting_monitor_update changed: `%s`' % b)
+    b = sole(ch, 'splice_initial_commitment_signed')
+    sp = re.search(r'\.received_commitment_signed\(\); self\.monitor_updating_paused\( false, false, false, Vec::new\(\), Vec::new\(\), Vec::new\(\), logger, \); self\.context\.monitor_pending_tx_signatures = (true|false); Ok\(self\.push_ret_blockable_mon_update\(monitor_update\)\) \}$', b)
+    if not sp: raise TranslateError('splice_initial_commitment_signed: pause + monitor_pending_tx_signatures + queue changed shape')
+    b = sole(ch, 'tx_signatures')
+    IA = {'self.is_awaiting_monitor_update()': 'awaiting_monitor_update', 'self.context.monitor_pending_tx_signatures': 'monitor_pending_tx_signatures',
+          'self.context.signer_pending_funding': 'signer_pending_funding'}
+    th = one(r'splice_locked: None, \}; if (.*?) \{ debug_assert!\(holder_tx_signatures\.is_some\(\)\); log_debug!\([^;]*\); return Ok\(funding_tx_signed\); \} funding_tx_signed\.tx_signatures = holder_tx_signatures;', b, 'tx_signatures: hold-back')
+    tx_held = bexpr(th, IA, 'tx_signatures hold-back')
+    if b.count('funding_tx_signed.tx_signatures = ') != 1: raise TranslateError('tx_signatures: a second place sets funding_tx_signed.tx_signatures')
+    b = sole(ch, 'signer_maybe_unblocked') if len(bodies(ch, 'signer_maybe_unblocked')) == 1 else [x for x in bodies(ch, 'signer_maybe_unblocked') if 'holder_tx_signatures' in x]
+    if isinstance(b, list):
+        if len(b) != 1: raise TranslateError('signer_maybe_unblocked: expected one body releasing tx_signatures, found %d' % len(b))
+        b = b[0]
+    su = one(r'if let Some\(signing_session\) = self\.context\.interactive_tx_signing_session\.as_ref\(\) \{ if (.*?) \{ tx_signatures = signing_session\.holder_tx_signatures\(\);', b, 'signer_maybe_unblocked: tx_signatures release')
+    su_l = bexpr(su, IA, 'signer_maybe_unblocked release')
+    if b.count('holder_tx_signatures()') != 1: raise TranslateError('signer_maybe_unblocked: tx_signatures taken in more than one place')
+    b = sole(ch, 'monitor_updating_restored')
+    one(r'(let mut tx_signatures = self \.context\.monitor_pending_tx_signatures\.then\(\|\| \(\)\)\.and_then\(\|_\| self\.context\.interactive_tx_signing_session\.as_ref\(\)\)\.and_then\(\|signing_session\| signing_session\.holder_tx_signatures\(\)\); self\.context\.monitor_pending_tx_signatures = false;)', b.replace('self.context.monitor_pending_tx_signatures.then', 'self .context.monitor_pending_tx_signatures.then'), 'monitor_updating_restored: tx_signatures take-out')
+    rs = one(r'if tx_signatures\.is_some\(\) \{ let signing_session = .*?; if (.*?) \{ tx_signatures\.take\(\); \} else \{', b, 'monitor_updating_restored: signer_pending_funding hold')
+    rs_l = bexpr(rs, IA, 'restored tx_signatures hold')
     # ---- maybe_propose_closing_signed --------------------------------------------------------------------
     b = sole(ch, 'maybe_propose_closing_signed')
     pm = re.match(r'^\{ if (.*?) \{ return Ok\(\(None, None\)\); \} if (.*?) \{ if let Some\(msg\) = &self\.context\.pending_counterparty_closing_signed\.take\(\) \{ return self\.closing_signed\(fee_estimator, &msg, logger\); \} return Ok\(\(None, None\)\); \} if (.*?) \{ return Ok\(\(None, None\)\); \} let \(our_min_fee, our_max_fee\) = self\.calculate_closing_fee_limits\(fee_estimator\); assert!\(self\.context\.shutdown_scriptpubkey\.is_some\(\)\); let \(closing_tx, total_fee_satoshis\) = self\.build_closing_transaction\(our_min_fee, false\)\?; (?:log_trace!\([^;]*\); )?let closing_signed = self\.get_closing_signed_msg\( &closing_tx, false, total_fee_satoshis, our_min_fee, our_max_fee, logger, \); Ok\(\(closing_signed, None\)\) \}$', b)
@@ -351,6 +376,14 @@ def main():
           '    released, 2 = the parked counterparty closing_signed is handed to `closing_signed` -/',
           'def proposeGate (last_sent ready is_outbound expecting_cs parked : Bool) : Nat :=',
           '  if %s then 0 else if %s then (if parked then 2 else 0) else if %s then 0 else 1' % (p1, p2, p3), '',
+          '/-- splice_initial_commitment_signed: the update recording the counterparty\'s initial post-splice commitment pauses the channel and sets monitor_pending_tx_signatures -/',
+          'def spliceCsMarksTxSignaturesPending : Bool := %s' % sp.group(1),
+          '/-- FundedChannel::tx_signatures: our tx_signatures are NOT put into the answer iff -/',
+          'def txSignaturesHeld (awaiting_monitor_update monitor_pending_tx_signatures : Bool) : Bool := %s' % tx_held,
+          '/-- signer_maybe_unblocked: our tx_signatures are released iff -/',
+          'def signerUnblockReleasesTxSignatures (awaiting_monitor_update signer_pending_funding : Bool) : Bool := %s' % su_l,
+          '/-- monitor_updating_restored: the tx_signatures owed (monitor_pending_tx_signatures, cleared) are still withheld iff -/',
+          'def restoredWithholdsTxSignatures (signer_pending_funding : Bool) : Bool := %s' % rs_l, '',
           '/-- FundedChannel::get_shutdown: it refuses (nothing is changed, no shutdown is sent, no ShutdownScript update is generated) iff — the',
           '    guards in order: stfu / quiescent, an outbound HTLC still LocalAnnounced, shutdown already sent / received, script override conflict,',
           '    peer disconnected or a monitor update in progress -/',
